@@ -44,6 +44,11 @@ def unsextets : List Nat → Option (List Nat)
   | [_] => none
   | [] => some []
 
+/-- `base64.URLEncoding.EncodeToString`: URL-safe alphabet, padded -/
+def encodeURLPadded (x : Bytes) : Bytes :=
+  let e := (encode x).map (fun c => if c == 43 then 45 else if c == 47 then 95 else c)
+  e ++ (if e.length % 4 == 2 then [61, 61] else if e.length % 4 == 3 then [61] else [])
+
 def mapM? {α β} (f : α → Option β) : List α → Option (List β)
   | [] => some []
   | a :: t => match f a, mapM? f t with
